@@ -48,11 +48,18 @@ def run_one(rng, tmp, i):
             remote.add_bytes(md5(data), data)
     listing = json.dumps(sorted(({"md5": md5(d), "relpath": "/".join(k[1:])} for k, d in files.items()), key=lambda e: e["relpath"]), sort_keys=True).encode()
     doid = md5(listing) + ".dir"
-    (cache if rng.random() < 0.5 else remote).add_bytes(doid, listing)
+    where_dir = rng.choice(["cache", "remote", "corrupt-cache+remote"])
+    if where_dir == "cache":
+        cache.add_bytes(doid, listing)
+    else:
+        remote.add_bytes(doid, listing)
+        if where_dir.startswith("corrupt"):
+            cache.add_bytes(doid, listing[: len(listing) // 2])  # a truncated copy in the earlier storage: the intact one must be used
     cache_first = rng.random() < 0.5
 
     def mk(lazy):
         idx = DataIndex()
+        idx.onerror = lambda *a: None  # a storage that cannot deliver is reported and the next one is tried
         for k, d in loose.items():
             idx[k] = DataIndexEntry(key=k, meta=Meta(size=len(d)), hash_info=HashInfo("md5", md5(d)))
         idx[("data",)] = DataIndexEntry(key=("data",), meta=Meta(isdir=True), hash_info=HashInfo("md5", doid))
@@ -111,10 +118,13 @@ def main():
     failures = []
     with tempfile.TemporaryDirectory(dir="/var/tmp") as tmp:
         for i in range(n):
-            failures += run_one(rng, tmp, i)
+            try:
+                failures += run_one(rng, tmp, i)
+            except Exception as e:  # noqa: BLE001  (the code under test raised where the statement promises an answer)
+                failures.append({"problems": [f"raised {type(e).__name__}: {str(e)[:120]}"]})
     print(json.dumps({"evaluations": n, "distinct_nontrivial": n, "n_failures": len(failures), "failures": failures[:4],
                       "bound": f"{n} seeded indexes: one directory object (<= 5 files, depth <= 3) + <= 2 loose files, cache and remote storages, "
-                               "each object in cache / remote / both / neither; cat_file, open, get_file, ls; lazy and expanded"}))
+                               "each object in cache / remote / both / neither, the directory listing possibly truncated in the cache and intact in the remote; cat_file, open, get_file, ls; lazy and expanded"}))
 
 
 if __name__ == "__main__":
